@@ -362,7 +362,7 @@ def _eos_wide_case(draw, tier):
     }
 
 
-@subcheck("C03", "eos_padded_wide", lambda tier: _eos_wide_case(tier), 40, 800,
+@subcheck("C03", "eos_padded_wide", lambda tier: _eos_wide_case(tier), 40, 300,
           doc="transcripts of <= 6 tokens in tensors 257..530 (thorough ..2049) wide, padded with copies of eos: targets vs the DP lemma")
 def _eos_padded_wide(case):
     info = _oc_check(case, brute=False)
